@@ -359,6 +359,17 @@ UNITS.append(dict(name="c01_fmt_traceSolutionPath", template="C01/fmt_trace.c", 
                   functions=["ompl::geometric::FMT::traceSolutionPathThroughTree"], sources=[dict(name="fmt_trace", file="src/ompl/geometric/planners/fmt/src/FMT.cpp", sig=r"void ompl::geometric::FMT::traceSolutionPathThroughTree\(Motion \*goalMotion\)", rules=FT_RULES, loops={"allow_uncontracted": True})],
                   canaries=[dict(name="goal_motion_left_out", where="body:fmt_trace", rx=r"for \(int i = mPathSize - 1; i >= 0; --i\)", repl="for (int i = mPathSize - 1; i > 0; --i)")]))
 
+PDF1 = "src/ompl/base/src/ProblemDefinition.cpp"
+PDEF_RULES = [(r"PlannerSolution sol\(path\);", "Sol sol; SOL_INIT(&sol, path);", 0), (r"sol\.setApproximate\(difference\);", "SOL_SET_APPROX(&sol, difference);", 0), (r"sol\.setPlannerName\(plannerName\);", "", 0), (r"addSolutionPath\(sol\);", "STORE(&sol);", 0),
+              (r"!goal_", "!HAS_GOAL", 0), (r"startStates_\.size\(\)", "nstarts", 0), (r"const State \*start = startStates_\[i\];", "bool start = S_present[i];", 0), (r"si_->isValid\(start\)", "S_valid[i]", 0),
+              (r"si_->satisfiesBounds\(start\)", "S_inb[i]", 0), (r"goal_->isSatisfied\(start, &dist\)", "GOAL_SAT(i, &dist)", 0)]
+PDEF_SRC = [dict(name="pd_addSolutionPath", file=PDF1, sig=r"void ompl::base::ProblemDefinition::addSolutionPath\(const PathPtr &path, bool approximate, double difference,\s*const std::string &plannerName\) const", rules=PDEF_RULES, loops={}),
+            dict(name="pd_isTrivial", file=PDF1, sig=r"bool ompl::base::ProblemDefinition::isTrivial\(unsigned int \*startIndex, double \*distance\) const", rules=PDEF_RULES, loops={"allow_uncontracted": True})]
+for _h, _fn, _can in (("pd_addSolutionPath", "ProblemDefinition::addSolutionPath(path, approximate, difference, name)", [dict(name="always_stored_as_exact", where="body:pd_addSolutionPath", rx=r"if \(approximate\)", repl="if (0)")]),
+                      ("pd_isTrivial", "ProblemDefinition::isTrivial", [dict(name="bounds_not_required", where="body:pd_isTrivial", rx=r" && S_inb\[i\]", repl="")])):
+    UNITS.append(dict(name="c01_" + _h, template="C01/pdef.c", mode="plain", entry="h_" + _h, sources=PDEF_SRC, needs=[_h], flags=["--bounds-check", "--pointer-check"], unwind=5, level="proof" if "add" in _h else "bounded", bound="" if "add" in _h else "<= 3 start states",
+                      backend="minisat", timeout=300, functions=["ompl::base::" + _fn], canaries=_can))
+
 # roadmap planners: a new problem definition forgets the old query's start/goal milestones (otherwise the old query's path is reported for the new one) -- units of C03
 def _c03_query_units():
     sp = importlib.util.spec_from_file_location("c03q", os.path.join(os.path.dirname(__file__), "C03.py")); m = importlib.util.module_from_spec(sp)
